@@ -23,11 +23,14 @@ import (
 )
 
 type ColT struct {
-	ID   int    `json:"id"`   // column number; SQL name c<ID> (id for 0)
-	Kind string `json:"kind"` // tinyint smallint int bigint (+ " unsigned") | varchar
-	N    int    `json:"n,omitempty"`
-	Null bool   `json:"null"`
+	ID   int      `json:"id"`   // column number; SQL name c<ID> (id for 0)
+	Kind string   `json:"kind"` // tinyint smallint int bigint (+ " unsigned") | varchar
+	N    int      `json:"n,omitempty"`
+	Vals []string `json:"vals,omitempty"` // enum members
+	Null bool     `json:"null"`
 }
+
+func (c ColT) isStr() bool { return c.Kind == "varchar" || c.Kind == "enum" }
 
 type Op struct {
 	Kind  string   `json:"kind"` // add drop modify rename renametable index uniq(nomodel) modifyx(nomodel)
@@ -66,6 +69,9 @@ func (c ColT) sqlType() string {
 	if c.Kind == "varchar" {
 		return fmt.Sprintf("varchar(%d)", c.N)
 	}
+	if c.Kind == "enum" {
+		return "enum('" + strings.Join(c.Vals, "','") + "')"
+	}
 	return c.Kind
 }
 func (c ColT) sqlDef() string {
@@ -79,6 +85,9 @@ func (c ColT) coqTy() string {
 	if c.Kind == "varchar" {
 		return fmt.Sprintf("(TStr %d)", c.N)
 	}
+	if c.Kind == "enum" {
+		return "(TEnum " + lib.CoqListOf(c.Vals, lib.CoqStr) + ")"
+	}
 	r := intRange[c.Kind]
 	return fmt.Sprintf("(TInt %s %s)", lib.CoqZStr(r[0]), lib.CoqZStr(r[1]))
 }
@@ -90,7 +99,7 @@ func coqVal(c ColT, v *string) string {
 	if v == nil {
 		return "VNull"
 	}
-	if c.Kind == "varchar" {
+	if c.isStr() {
 		return "(VStr " + lib.CoqStr(*v) + ")"
 	}
 	return "(VInt " + lib.CoqZStr(*v) + ")"
@@ -100,7 +109,7 @@ func sqlVal(c ColT, v *string) string {
 	if v == nil {
 		return "NULL"
 	}
-	if c.Kind == "varchar" {
+	if c.isStr() {
 		return "'" + *v + "'"
 	}
 	return *v
@@ -110,6 +119,17 @@ func sqlVal(c ColT, v *string) string {
 func refConv(c ColT, v *string, from ColT) (string, bool, bool) { // value, isNull, ok
 	if v == nil {
 		return "", true, c.Null
+	}
+	if c.Kind == "enum" { // stored by member string: representable iff still a member
+		for _, m := range c.Vals {
+			if m == *v {
+				return *v, false, from.Kind == "enum"
+			}
+		}
+		return "", false, false
+	}
+	if from.Kind == "enum" {
+		return "", false, false // enum -> other families is not generated
 	}
 	if c.Kind == "varchar" {
 		s := *v // numbers print in decimal
@@ -138,6 +158,9 @@ func sp(s string) *string { return &s }
 func genVal(r *lib.RNG, c ColT) *string {
 	if c.Null && r.Chance(1, 5) {
 		return nil
+	}
+	if c.Kind == "enum" {
+		return sp(lib.Pick(r, c.Vals))
 	}
 	if c.Kind == "varchar" {
 		n := r.Intn(c.N + 1)
@@ -173,7 +196,65 @@ func genVal(r *lib.RNG, c ColT) *string {
 	return sp(z.String())
 }
 
+var enumPool = []string{"a", "b", "c", "x", "yy", "Z", "q1", "m"}
+
+func genEnumVals(r *lib.RNG) []string {
+	n := r.Range(1, 4)
+	perm := append([]string{}, enumPool...)
+	for i := len(perm) - 1; i > 0; i-- {
+		j := r.Intn(i + 1)
+		perm[i], perm[j] = perm[j], perm[i]
+	}
+	return perm[:n]
+}
+
+// redefineEnum: reorder, insert new members before / among / after, or (sometimes) drop a member
+func redefineEnum(r *lib.RNG, old []string) []string {
+	vs := append([]string{}, old...)
+	switch r.Intn(6) {
+	case 0: // append only (no rewrite)
+	case 1, 2: // reorder
+		for i := len(vs) - 1; i > 0; i-- {
+			j := r.Intn(i + 1)
+			vs[i], vs[j] = vs[j], vs[i]
+		}
+		if len(vs) > 1 && strings.Join(vs, ",") == strings.Join(old, ",") {
+			vs[0], vs[1] = vs[1], vs[0]
+		}
+	case 3: // drop one (fails if stored)
+		if len(vs) > 1 {
+			k := r.Intn(len(vs))
+			vs = append(vs[:k:k], vs[k+1:]...)
+		}
+	}
+	// insert 0-2 fresh members at random places
+	for k := r.Intn(3); k > 0; k-- {
+		var fresh string
+		for _, c := range enumPool {
+			used := false
+			for _, v := range vs {
+				if v == c {
+					used = true
+				}
+			}
+			if !used {
+				fresh = c
+				break
+			}
+		}
+		if fresh == "" {
+			break
+		}
+		at := r.Intn(len(vs) + 1)
+		vs = append(vs[:at:at], append([]string{fresh}, vs[at:]...)...)
+	}
+	return vs
+}
+
 func genCol(r *lib.RNG, id int) ColT {
+	if r.Chance(1, 6) {
+		return ColT{ID: id, Kind: "enum", Vals: genEnumVals(r), Null: r.Chance(2, 3)}
+	}
 	if r.Chance(1, 3) {
 		return ColT{ID: id, Kind: "varchar", N: lib.Pick(r, []int{1, 3, 5, 10, 20}), Null: r.Chance(2, 3)}
 	}
@@ -323,6 +404,8 @@ func gen(r *lib.RNG) caseT {
 			if !o.HasDf && !c.Null { // zero value
 				if c.Kind == "varchar" {
 					o.Fill = sp("")
+				} else if c.Kind == "enum" {
+					o.Fill = sp(c.Vals[0])
 				} else {
 					o.Fill = sp("0")
 				}
@@ -340,6 +423,8 @@ func gen(r *lib.RNG) caseT {
 			nc := c
 			if c.Kind == "varchar" {
 				nc.N = lib.Pick(r, []int{1, 2, 3, 5, 10, 20, 30})
+			} else if c.Kind == "enum" {
+				nc.Vals = redefineEnum(r, c.Vals)
 			} else {
 				nc.Kind = lib.Pick(r, intKinds)
 			}
@@ -375,6 +460,9 @@ func gen(r *lib.RNG) caseT {
 		default: // implementation-only: cross-family MODIFY
 			c := pickCol()
 			nc := c
+			if c.Kind == "enum" {
+				continue
+			}
 			if c.Kind == "varchar" {
 				nc.Kind, nc.N = lib.Pick(r, intKinds), 0
 			} else {
@@ -424,12 +512,22 @@ func observe(s *eng.S, tn int) obsT {
 		o.err = "describe: " + d.Err.Error()
 		return o
 	}
+	var sel []string
 	for _, row := range d.Rows {
-		k, n := parseType(fmt.Sprint(row[1]))
-		o.cols = append(o.cols, ColT{ID: colID(fmt.Sprint(row[0])), Kind: k, N: n, Null: fmt.Sprint(row[2]) == "YES"})
+		ts := fmt.Sprint(row[1])
+		k, n := parseType(ts)
+		col := ColT{ID: colID(fmt.Sprint(row[0])), Kind: k, N: n, Null: fmt.Sprint(row[2]) == "YES"}
+		if strings.HasPrefix(ts, "enum('") {
+			col.Kind = "enum"
+			col.Vals = strings.Split(strings.TrimSuffix(strings.TrimPrefix(ts, "enum('"), "')"), "','")
+			sel = append(sel, "CAST("+cname(col.ID)+" AS CHAR)") // read the member string, not the stored index
+		} else {
+			sel = append(sel, cname(col.ID))
+		}
+		o.cols = append(o.cols, col)
 		o.desc = append(o.desc, fmt.Sprintf("%v|%v|%v|%v", row[0], row[1], row[2], row[4]))
 	}
-	q := s.Query("SELECT * FROM " + tname(tn) + " ORDER BY id")
+	q := s.Query("SELECT " + strings.Join(sel, ", ") + " FROM " + tname(tn) + " ORDER BY id")
 	if q.Err != nil {
 		o.err = "select: " + q.Err.Error()
 		return o
